@@ -239,3 +239,50 @@ where
     };
     catch(|| c_f(v.titer().vpercentile_of(T::enc(score), m)))
 }
+
+/// The null-skipping fold primitives of `IterBasic` (`vfold`, `vfold2`, `vfold_n`, `vapply`, `vapply_n`):
+/// what each of them visits, in order. Layout of the observation:
+/// `[vfold visits.., |, vfold_n count, visits.., |, vapply visits.., |, vapply_n count, visits.., |, vfold2 pairs (a, b)..]`
+/// with `Cell::S("|")` as separator. `x` and `y` (equal length) are encoded as T.
+pub fn run_fold_prims<T>(x: &[X], y: &[X]) -> Option<Outcome<Vec<Cell>>>
+where
+    T: Elem + IsNone,
+    T::Inner: Elem,
+{
+    if !encodable::<T>(x) || !encodable::<T>(y) {
+        return None;
+    }
+    let v: Vec<T> = enc_vec(x);
+    let w: Vec<T> = enc_vec(y);
+    Some(catch(move || {
+        let sep = || Cell::S("|".into());
+        let mut out: Vec<Cell> = vec![];
+        out.extend(v.clone().vfold(Vec::<Cell>::new(), |mut acc, item| {
+            acc.push(item.dec());
+            acc
+        }));
+        out.push(sep());
+        let (n, vis) = v.clone().vfold_n(Vec::<Cell>::new(), |mut acc, item| {
+            acc.push(item.dec());
+            acc
+        });
+        out.push(c_usize(n));
+        out.extend(vis);
+        out.push(sep());
+        let mut vis = vec![];
+        v.clone().vapply(|item| vis.push(item.dec()));
+        out.extend(vis);
+        out.push(sep());
+        let mut vis = vec![];
+        let n = v.clone().vapply_n(|item| vis.push(item.dec()));
+        out.push(c_usize(n));
+        out.extend(vis);
+        out.push(sep());
+        out.extend(v.clone().vfold2(w.clone(), Vec::<Cell>::new(), |mut acc, a, b| {
+            acc.push(a.dec());
+            acc.push(b.dec());
+            acc
+        }));
+        out
+    }))
+}
